@@ -372,7 +372,8 @@ def get_string_pattern_with_prefix(prefix, prefix_group_name=None):
 
 
 def get_string_pattern():
-    prefix = r"(?<![fF])(\b[uUbB]?[rR]?)?"
+    # u, b, r, br and rb in any case
+    prefix = r"(?<![fF])(\b(?:[uU]|[bB][rR]?|[rR][bB]?))?"
     return get_string_pattern_with_prefix(prefix)
 
 
